@@ -584,6 +584,29 @@ func genSegCrash(c *ctx, emit func(string)) {
 	for i := 0; i < nfail; i++ {
 		emit(genFailChain(r, c, i))
 	}
+	// torn SEALING batch behind an acknowledged one (always emitted): batch 1 is committed, the
+	// next batch fills the segment, so index frame and sealing commit go out in the same write;
+	// power fails with everything on disk except one payload chunk.  Recovery must rewind to
+	// batch 1 AND forget the seal (indexStart of the discarded batch), accept further appends,
+	// and a later seal must record its own index offset.
+	for k := 0; k < 3; k++ {
+		limit := []int{1024, 4096, 16384}[k]
+		base := uint64(1 + r.Intn(1000))
+		n := limit/2 + 64
+		ops := []string{fmt.Sprintf("seg %x %x 1 %x %x", base, r.Uint64()>>uint(r.Intn(64)), limit, limit),
+			fmt.Sprintf("A 1 %x %s", base, payload(r, 24)),
+			fmt.Sprintf("A 2 %x %s %x %s", base+1, payload(r, n), base+2, payload(r, n))}
+		first := 32 + 8 + 24 + 8 // header, entry frame of 24 bytes, commit
+		mask := new(big.Int)
+		for j := 0; j < (first+2*(n+16)+128)/8+64; j++ {
+			mask.SetBit(mask, j, 1)
+		}
+		mask.SetBit(mask, first/8+2+r.Intn(n/8-2), 0) // one payload chunk of the first entry of the sealing batch
+		ops = append(ops, "C "+mask.Text(16), "L", "Q", fmt.Sprintf("G %x", base), fmt.Sprintf("G %x", base+1),
+			fmt.Sprintf("A 1 %x %s", base+1, payload(r, 9)), "L", "Q", "S", "L", "Q", "F", "D 0 0")
+		emit(strings.Join(ops, " "))
+		c.stat("torn_sealing_batch_scenarios")
+	}
 	for i := 0; i < c.n; i++ {
 		if r.Intn(5) == 0 {
 			emit(genFailMix(r, c))
